@@ -321,3 +321,42 @@ Proof.
     specialize (Hwf l o Hg). unfold items_below in Hwf. rewrite Forall_forall in Hwf.
     destruct (Hwf _ Hin) as [A B]. cbn [fst snd] in *. rewrite (IH k A), (IH x B). reflexivity.
 Qed.
+
+(* ---- rebinding a slot to a value with the same snapshots changes no snapshot (up to the depth the agreement is known) -- *)
+Lemma map_assoc_set_same : forall (f g : val * val -> tree * tree) k d old items,
+  assoc k items = Some old ->
+  (forall kv, In kv items -> f kv = g kv) ->
+  (forall k', f (k', d) = g (k', old)) ->
+  map f (assoc_set k d items) = map g items.
+Proof.
+  intros f g k d old items. induction items as [|[k' v'] t IH]; intros Ha Hfg Hd; simpl in *; [discriminate|].
+  destruct (val_eqb k k') eqn:E.
+  - inversion Ha; subst. simpl. f_equal; [apply Hd|]. apply map_ext_in. intros kv Hin. apply Hfg. right. exact Hin.
+  - simpl. f_equal; [apply Hfg; left; reflexivity|]. apply IH; auto.
+Qed.
+
+Lemma snap_set_field_same : forall st h k d M,
+  (match assoc k (items_of st h) with Some _ => True | None => False end) ->
+  (forall m, (m <= M)%nat -> snap m st d = snap m st (field st h k)) ->
+  forall n, (n <= S M)%nat -> forall v, snap n (set_field st h k d) v = snap n st v.
+Proof.
+  intros st h k d M Hhas Hsame.
+  destruct h as [| | |l]; try (simpl in Hhas; contradiction).
+  destruct (get st l) as [o|] eqn:Hg; [|simpl in Hhas; rewrite Hg in Hhas; simpl in Hhas; contradiction].
+  assert (Hio : items_of st (VLoc l) = o_items o) by (simpl; rewrite Hg; reflexivity).
+  rewrite Hio in Hhas. destruct (assoc k (o_items o)) as [old|] eqn:Ea; [|contradiction].
+  assert (Hold : field st (VLoc l) k = old) by (unfold field; rewrite Hio, Ea; reflexivity).
+  assert (Hst' : set_field st (VLoc l) k d = upd st l (mkObj (o_kind o) (assoc_set k d (o_items o)))).
+  { unfold set_field, set_items. rewrite Hg, Hio. reflexivity. }
+  rewrite Hst'. set (st' := upd st l (mkObj (o_kind o) (assoc_set k d (o_items o)))).
+  induction n as [|n IH]; intros Hn v; [destruct v; reflexivity|].
+  destruct v as [| | |l']; try reflexivity. cbn [snap].
+  assert (IH' : forall x, snap n st' x = snap n st x) by (intros; apply IH; lia).
+  destruct (Nat.eq_dec l l') as [<-|Hne].
+  - unfold st'. rewrite get_upd_same by (eapply get_some_lt; eauto). rewrite Hg. cbn [o_kind o_items]. f_equal.
+    apply (map_assoc_set_same _ _ k d old); auto.
+    + intros [a b] _. cbn [fst snd]. fold st'. rewrite !IH'. reflexivity.
+    + intros k'. cbn [fst snd]. fold st'. rewrite !IH'. f_equal. rewrite (Hsame n ltac:(lia)). rewrite Hold. reflexivity.
+  - unfold st'. rewrite get_upd_other by assumption. destruct (get st l') as [o'|]; [|reflexivity]. f_equal.
+    apply map_ext_in. intros [a b] _. cbn [fst snd]. fold st'. rewrite !IH'. reflexivity.
+Qed.
